@@ -420,6 +420,7 @@ func runLocalSync(t *testing.T, tp *simrt.Tape, prop string) hx.Result {
 	for i := 0; i < tp.GenRange(1, 3); i++ {
 		genCreate()
 	}
+	shardLimit := 0
 	rootArgs := func(sel []int) []string {
 		var out []string
 		for _, i := range sel {
@@ -448,6 +449,9 @@ func runLocalSync(t *testing.T, tp *simrt.Tape, prop string) hx.Result {
 	}
 	syncArgs := func(force bool, sel []int) []string {
 		a := []string{"-index", w.indexDir, "-disable_ctags", "-parallelism", "1"}
+		if shardLimit > 0 {
+			a = append(a, "-shard_limit", fmt.Sprint(shardLimit)) // repositories span several shards
+		}
 		if force {
 			a = append(a, "-f")
 		}
@@ -474,6 +478,11 @@ func runLocalSync(t *testing.T, tp *simrt.Tape, prop string) hx.Result {
 		want := map[string]*lsRepo{}
 		for _, r := range w.discovered(sel) {
 			want[w.name(r)] = r
+		}
+		for _, e := range idx {
+			if len(e.shards) > 1 {
+				res.Probes["repository-spans-several-shards"]++
+			}
 		}
 		for name, r := range want {
 			e := idx[name]
@@ -516,7 +525,163 @@ func runLocalSync(t *testing.T, tp *simrt.Tape, prop string) hx.Result {
 			}
 		}
 	}
+	syncPair := func(sel []int, allowFault bool) {
+		// sync preview followed by the same command with -f
+		before := lsSnapshot(w.indexDir)
+		pout, perr, _, pops, _ := lsRun(simos.Plan{}, syncArgs(false, sel))
+		after := lsSnapshot(w.indexDir)
+		res.Evals++
+		history = append(history, fmt.Sprintf("sync roots=%s", rootNames(sel)))
+		ctx := fmt.Sprintf("sync (preview) over roots %s", rootNames(sel))
+		if muts := lsIndexMutations(pops, w.indexDir); len(muts) > 0 {
+			report("C33", "preview-mutates-index-directory|sync", fmt.Sprintf("%s performed %v in the index directory", ctx, muts))
+		}
+		if d := before.diff(after); len(d) > 0 {
+			report("C33", "preview-changes-index-directory|sync", fmt.Sprintf("%s changed the index directory: %v", ctx, d))
+		}
+		// optional fault in the forced run
+		plan := simos.Plan{}
+		fault := ""
+		if allowFault && tp.Gen(5) == 0 {
+			// record the forced run on a copy of the index? It is cheaper to pick an operation number blindly.
+			k := 1 + tp.Fault(60)
+			if tp.Fault(2) == 0 {
+				plan = simos.Plan{CrashAt: k}
+				fault = fmt.Sprintf("killed before its file-system operation %d", k)
+			} else {
+				plan = simos.Plan{FailAt: k}
+				fault = fmt.Sprintf("its file-system operation %d fails with EIO", k)
+			}
+		}
+		fbefore := lsSnapshot(w.indexDir)
+		fout, ferr, completed, fops, fired := lsRun(plan, syncArgs(true, sel))
+		res.Evals++
+		for kk, v := range fired {
+			res.Faults[kk] += v
+		}
+		faulted := len(fired) > 0
+		h := fmt.Sprintf("sync -f roots=%s", rootNames(sel))
+		if faulted {
+			h += " (" + fault + ")"
+			for _, o := range fops {
+				if (plan.CrashAt == o.K || plan.FailAt == o.K) && o.K > 0 {
+					h += fmt.Sprintf(" [%s %s]", o.Name, filepath.Base(o.Path))
+				}
+			}
+		}
+		if ferr != nil {
+			h += " -> error"
+		}
+		history = append(history, h)
+		fctx := fmt.Sprintf("sync -f over roots %s", rootNames(sel))
+		if !faulted {
+			if dupNames(sel) {
+				res.Probes["duplicate-names"]++
+				if ferr == nil {
+					report("C34", "duplicate-names-accepted", fmt.Sprintf("%s succeeded although two discovered repositories get the same name", fctx))
+				}
+				if muts := lsIndexMutations(fops, w.indexDir); len(muts) > 0 {
+					report("C34", "failed-for-duplicates-after-changing-the-index", fmt.Sprintf("%s failed (%v) but performed %v", fctx, ferr, muts))
+				}
+				if d := fbefore.diff(lsSnapshot(w.indexDir)); len(d) > 0 {
+					report("C34", "failed-for-duplicates-after-changing-the-index", fmt.Sprintf("%s failed (%v) but the index directory changed: %v", fctx, ferr, d))
+				}
+				if perr == nil {
+					report("C33", "preview-succeeds-where-forced-run-refuses|sync", fmt.Sprintf("%s: preview succeeded, -f failed with %v", ctx, ferr))
+				}
+			} else {
+				if perr != nil && ferr == nil {
+					report("C33", "preview-fails-where-forced-run-succeeds|sync", fmt.Sprintf("%s failed with %v but the same command with -f succeeded", ctx, perr))
+				}
+				if perr == nil && ferr != nil {
+					res.Probes["forced-run-failed-after-clean-preview"]++
+					report("C33", "forced-run-fails-after-clean-preview|sync", fmt.Sprintf("%s succeeded but the same command with -f failed: %v", ctx, ferr))
+				}
+				if perr == nil && ferr == nil {
+					pr, fr := lsSet(reWouldRemove, pout), lsSet(reRemoving, fout)
+					pi, fi := lsSet(reWouldIndex, pout), lsSet(reIndexed, fout)
+					if fmt.Sprint(pr) != fmt.Sprint(fr) {
+						report("C33", "announced-removals-differ-from-performed|sync", fmt.Sprintf("%s announced removals %v, the same command with -f removed %v", ctx, pr, fr))
+					}
+					if fmt.Sprint(pi) != fmt.Sprint(fi) {
+						report("C33", "announced-indexing-differs-from-performed|sync", fmt.Sprintf("%s announced (re)indexing of %v, the same command with -f indexed %v\npreview output:\n%s\n-f output:\n%s", ctx, pi, fi, pout, fout))
+					}
+					if len(pr)+len(pi) > 0 {
+						res.Probes["preview-announced-something"]++
+					}
+				}
+				if ferr == nil {
+					checkConverged(sel, fctx)
+				}
+			}
+		} else {
+			res.Offered["fault-in-forced-sync"]++
+			if completed && ferr == nil && plan.FailAt > 0 {
+				// an I/O error was injected into some operation; if the command still claims success the index must have converged
+				checkConverged(sel, fctx+" ("+fault+", success reported)")
+			}
+			// recovery: the next fault-free sync -f must converge (unless names collide)
+			rout, rerr, _, _, _ := lsRun(simos.Plan{}, syncArgs(true, sel))
+			_ = rout
+			res.Evals++
+			history = append(history, fmt.Sprintf("sync -f roots=%s (recovery)", rootNames(sel)))
+			if !dupNames(sel) {
+				if rerr != nil {
+					report("C34", "sync-does-not-recover-after-interrupted-run", fmt.Sprintf("sync -f after an interrupted run (%s) fails: %v", fault, rerr))
+				} else {
+					checkConverged(sel, fctx+" after an interrupted run ("+fault+")")
+				}
+			}
+		}
+		res.Distinct = append(res.Distinct, lsHash(strings.Join(history, "|")))
+	}
 	nSteps := tp.GenRange(3, 8)
+	shardLimit = []int{0, 0, 30}[tp.Gen(3)]
+	allRoots := []int{}
+	for i := 0; i < nRoots; i++ {
+		allRoots = append(allRoots, i)
+	}
+	// a quarter of the runs start with a scripted prefix that sets up a state the
+	// random steps reach only rarely; the random steps then continue from it
+	if len(w.repos) > 0 {
+		first := w.repos[0]
+		switch tp.Gen(12) {
+		case 0:
+			// indexed, then moved to another root keeping its name (no new commit)
+			if first.rel != "." && first.inside == nil {
+				syncPair(allRoots, false)
+				nr := (first.root + 1) % nRoots
+				if free(nr, first.rel) {
+					old := w.path(first)
+					history = append(history, fmt.Sprintf("move repo root%c/%s -> root%c/%s", 'A'+first.root, first.rel, 'A'+nr, first.rel))
+					first.root = nr
+					os.MkdirAll(filepath.Dir(w.path(first)), 0o755)
+					if err := os.Rename(old, w.path(first)); err != nil {
+						res.HarnessErr = "move: " + err.Error()
+					}
+					if !first.bare {
+						first.work = w.path(first)
+					}
+					syncPair(allRoots, false)
+				}
+			}
+		case 1:
+			// a repository spanning several shards, synchronised twice without any change
+			shardLimit = 30
+			w.commit(first, w.name(first))
+			w.commit(first, w.name(first))
+			history = append(history, fmt.Sprintf("2 commits in root%c/%s", 'A'+first.root, first.rel))
+			syncPair(allRoots, false)
+			syncPair(allRoots, false)
+		case 2:
+			// indexed, then only mutable metadata changes
+			syncPair(allRoots, false)
+			w.seq++
+			lsGit(w.path(first), "config", "zoekt.web-url", fmt.Sprintf("http://example.com/%s/%d", w.name(first), w.seq))
+			history = append(history, fmt.Sprintf("set zoekt.web-url in root%c/%s", 'A'+first.root, first.rel))
+			syncPair(allRoots, false)
+		}
+	}
 	forceSync := false // the next step is a sync (preview + forced run)
 	for step := 0; step < nSteps && res.HarnessErr == ""; step++ {
 		k := tp.Gen(16)
@@ -570,6 +735,7 @@ func runLocalSync(t *testing.T, tp *simrt.Tape, prop string) hx.Result {
 			if !r.bare {
 				r.work = w.path(r)
 			}
+			forceSync = tp.Gen(3) != 0
 		case k == 3 && len(w.repos) > 0:
 			r := w.repos[tp.Gen(len(w.repos))]
 			w.commit(r, w.name(r))
@@ -598,115 +764,7 @@ func runLocalSync(t *testing.T, tp *simrt.Tape, prop string) hx.Result {
 			}
 			history = append(history, fmt.Sprintf("foreign shard %q without source appears", name))
 		case k <= 8 || k == 14:
-			// sync preview followed by the same command with -f
-			sel := pickRoots()
-			before := lsSnapshot(w.indexDir)
-			pout, perr, _, pops, _ := lsRun(simos.Plan{}, syncArgs(false, sel))
-			after := lsSnapshot(w.indexDir)
-			res.Evals++
-			history = append(history, fmt.Sprintf("sync roots=%s", rootNames(sel)))
-			ctx := fmt.Sprintf("sync (preview) over roots %s", rootNames(sel))
-			if muts := lsIndexMutations(pops, w.indexDir); len(muts) > 0 {
-				report("C33", "preview-mutates-index-directory|sync", fmt.Sprintf("%s performed %v in the index directory", ctx, muts))
-			}
-			if d := before.diff(after); len(d) > 0 {
-				report("C33", "preview-changes-index-directory|sync", fmt.Sprintf("%s changed the index directory: %v", ctx, d))
-			}
-			// optional fault in the forced run
-			plan := simos.Plan{}
-			fault := ""
-			if tp.Gen(5) == 0 {
-				// record the forced run on a copy of the index? It is cheaper to pick an operation number blindly.
-				k := 1 + tp.Fault(60)
-				if tp.Fault(2) == 0 {
-					plan = simos.Plan{CrashAt: k}
-					fault = fmt.Sprintf("killed before its file-system operation %d", k)
-				} else {
-					plan = simos.Plan{FailAt: k}
-					fault = fmt.Sprintf("its file-system operation %d fails with EIO", k)
-				}
-			}
-			fbefore := lsSnapshot(w.indexDir)
-			fout, ferr, completed, fops, fired := lsRun(plan, syncArgs(true, sel))
-			res.Evals++
-			for kk, v := range fired {
-				res.Faults[kk] += v
-			}
-			faulted := len(fired) > 0
-			h := fmt.Sprintf("sync -f roots=%s", rootNames(sel))
-			if faulted {
-				h += " (" + fault + ")"
-				for _, o := range fops {
-					if (plan.CrashAt == o.K || plan.FailAt == o.K) && o.K > 0 {
-						h += fmt.Sprintf(" [%s %s]", o.Name, filepath.Base(o.Path))
-					}
-				}
-			}
-			if ferr != nil {
-				h += " -> error"
-			}
-			history = append(history, h)
-			fctx := fmt.Sprintf("sync -f over roots %s", rootNames(sel))
-			if !faulted {
-				if dupNames(sel) {
-					res.Probes["duplicate-names"]++
-					if ferr == nil {
-						report("C34", "duplicate-names-accepted", fmt.Sprintf("%s succeeded although two discovered repositories get the same name", fctx))
-					}
-					if muts := lsIndexMutations(fops, w.indexDir); len(muts) > 0 {
-						report("C34", "failed-for-duplicates-after-changing-the-index", fmt.Sprintf("%s failed (%v) but performed %v", fctx, ferr, muts))
-					}
-					if d := fbefore.diff(lsSnapshot(w.indexDir)); len(d) > 0 {
-						report("C34", "failed-for-duplicates-after-changing-the-index", fmt.Sprintf("%s failed (%v) but the index directory changed: %v", fctx, ferr, d))
-					}
-					if perr == nil {
-						report("C33", "preview-succeeds-where-forced-run-refuses|sync", fmt.Sprintf("%s: preview succeeded, -f failed with %v", ctx, ferr))
-					}
-				} else {
-					if perr != nil && ferr == nil {
-						report("C33", "preview-fails-where-forced-run-succeeds|sync", fmt.Sprintf("%s failed with %v but the same command with -f succeeded", ctx, perr))
-					}
-					if perr == nil && ferr != nil {
-						res.Probes["forced-run-failed-after-clean-preview"]++
-						report("C33", "forced-run-fails-after-clean-preview|sync", fmt.Sprintf("%s succeeded but the same command with -f failed: %v", ctx, ferr))
-					}
-					if perr == nil && ferr == nil {
-						pr, fr := lsSet(reWouldRemove, pout), lsSet(reRemoving, fout)
-						pi, fi := lsSet(reWouldIndex, pout), lsSet(reIndexed, fout)
-						if fmt.Sprint(pr) != fmt.Sprint(fr) {
-							report("C33", "announced-removals-differ-from-performed|sync", fmt.Sprintf("%s announced removals %v, the same command with -f removed %v", ctx, pr, fr))
-						}
-						if fmt.Sprint(pi) != fmt.Sprint(fi) {
-							report("C33", "announced-indexing-differs-from-performed|sync", fmt.Sprintf("%s announced (re)indexing of %v, the same command with -f indexed %v\npreview output:\n%s\n-f output:\n%s", ctx, pi, fi, pout, fout))
-						}
-						if len(pr)+len(pi) > 0 {
-							res.Probes["preview-announced-something"]++
-						}
-					}
-					if ferr == nil {
-						checkConverged(sel, fctx)
-					}
-				}
-			} else {
-				res.Offered["fault-in-forced-sync"]++
-				if completed && ferr == nil && plan.FailAt > 0 {
-					// an I/O error was injected into some operation; if the command still claims success the index must have converged
-					checkConverged(sel, fctx+" ("+fault+", success reported)")
-				}
-				// recovery: the next fault-free sync -f must converge (unless names collide)
-				rout, rerr, _, _, _ := lsRun(simos.Plan{}, syncArgs(true, sel))
-				_ = rout
-				res.Evals++
-				history = append(history, fmt.Sprintf("sync -f roots=%s (recovery)", rootNames(sel)))
-				if !dupNames(sel) {
-					if rerr != nil {
-						report("C34", "sync-does-not-recover-after-interrupted-run", fmt.Sprintf("sync -f after an interrupted run (%s) fails: %v", fault, rerr))
-					} else {
-						checkConverged(sel, fctx+" after an interrupted run ("+fault+")")
-					}
-				}
-			}
-			res.Distinct = append(res.Distinct, lsHash(strings.Join(history, "|")))
+			syncPair(pickRoots(), true)
 		default:
 			// remove preview + remove -f
 			idx, _ := lsReadIndex(w.indexDir)
